@@ -737,8 +737,8 @@ pub async fn run(ops: &str, out: &str, stats_path: Option<&str>, work: &str) {
                         let mut ok = true;
                         for t in vals.split(';').filter(|t| !t.is_empty()) {
                             let p: Vec<&str> = t.split(':').collect();
-                            if p.len() != 3 {
-                                ok = false;
+                            if p.len() != 3 || crate::c15gen::SYSTEM_FIELD_NAMES.contains(&p[0]) {
+                                ok = false; // values for system fields are outside the op language (the model has no verdict)
                                 break;
                             }
                             match p[1] {
